@@ -66,7 +66,7 @@ type aCPU struct {
 
 type aBytes struct {
 	N      int    `json:"n"`
-	Half   bool   `json:"half"`
+	Tenths int    `json:"tenths"`
 	Suffix string `json:"suffix"`
 }
 
@@ -145,8 +145,8 @@ func cpuText(c aCPU) scalar {
 
 func bytesText(b aBytes) scalar {
 	s := strconv.Itoa(b.N)
-	if b.Half {
-		s += ".5"
+	if b.Tenths != 0 {
+		s += "." + strconv.Itoa(b.Tenths)
 	}
 	if b.Suffix == "" {
 		return scalar(s)
